@@ -59,6 +59,13 @@ for f in plan["files"]:
                 with pybes3.open_raw(path) as r:
                     res = []
                     for h in cfg["history"]:
+                        if h.get("bad_sel"):
+                            try:
+                                r.arrays(n_blocks=h["n_blocks"], n_block_per_batch=h["per_batch"], sub_detectors=h["bad_sel"], max_workers=cfg.get("workers"), decode_reid=False)
+                                res.append("no-error")
+                            except Exception as ex:
+                                res.append("raised")
+                            continue
                         a = r.arrays(n_blocks=h["n_blocks"], n_block_per_batch=h["per_batch"], sub_detectors=cfg.get("sel"), max_workers=cfg.get("workers"), decode_reid=False)
                         res.append(a.tolist())
                     out["results"] = res
